@@ -498,6 +498,10 @@ pub fn run(cases: &[Value], trace: &mut Trace, seed: u64) {
                                     }
                                     "size_field>max" => size = 5000,
                                     "body_short" => body.truncate(3),
+                                    // a well-formed acknowledgement that reports failure with a value whose low half is zero
+                                    "val=2^32" => body = (1u64 << 32).to_le_bytes().to_vec(),
+                                    "val=2^63" => body = (1u64 << 63).to_le_bytes().to_vec(),
+                                    "val=-2^32" => body = ((-(1i64 << 32)) as u64).to_le_bytes().to_vec(),
                                     "fds+1" => extra.push(memfd("x", 0)),
                                     "random" => {
                                         rcode = rng.next() as u32;
